@@ -27,6 +27,8 @@ def rows(rnd):
     return out
 r1,r2,r3,r4,r5,r6,r7,r8,r9=[rows(i) for i in range(1,10)]
 r11=rows(11); n11,m11=nm(r11) if False else (len(r11),sum('missed at first' in x for x in r11))
+r12=rows(12); n12,m12=len(r12),sum('missed at first' in x for x in r12)
+r13=rows(13); n13,m13=len(r13),sum('missed at first' in x for x in r13)
 def nm(r): return len(r),sum('missed at first' in x for x in r)
 (n1,m1),(n2,m2),(n3,m3),(n4,m4),(n5,m5),(n6,m6),(n7,m7),(n8,m8),(n9,m9)=[nm(r) for r in (r1,r2,r3,r4,r5,r6,r7,r8,r9)]
 own=open('/verif/mutants/RESULTS.txt').read().strip().split('\n')
@@ -167,6 +169,31 @@ locking, atomic value with a separately locked rollover count, unlock before the
 | seed | property | detected by (scenario / clause) |
 |---|---|---|
 '''%(n11,n11-m11,m11)+'\n'.join(r11)+'''
+
+**Round 12** (%d changes; the brief of round 7 once more - "a different kind of slip" - with the
+slips of rounds 7-11 added to the used-up list): %d detected as the checks stood, %d missed at first.
+
+| seed | property | detected by (scenario / clause) |
+|---|---|---|
+'''%(n12,n12-m12,m12)+'\n'.join(r12)+'''
+
+**Round 13** (%d changes; the brief of rounds 2 and 6 once more - "aim beyond what a small-scope
+explorer covers" - telling the authors what the tool had meanwhile been hardened against (sizes
+through 2^8..2^21, whole-range counts, time sweeps, thousands of equal-sized calls) and pointing
+them at what is left: combinations of two mid-range values, the order of more than four calls,
+alignment, a content byte in a structured position, parity of a count, state that only matters
+after 5-50 calls, two option flags together): %d detected as the checks stood, **%d missed at
+first** - fewer than in rounds 2 and 6 (20 of 24, 11 of 20), but the blind side of a bounded
+exploration is still there to be found by someone who looks for it. What was missing this time:
+options nobody had switched on (zero-allocation mode of the depacketizers, DONL toggled between
+calls, picture ids toggled mid-stream), the second call after a change of size, an update after 15
+insertions, repeated ids in decoded packets, non-adjacent duplicates, bit lengths between the
+LEB128 size classes, empty fragments from a foreign encoder, layer-id pairs outside a 5-value
+alphabet.
+
+| seed | property | detected by (scenario / clause) |
+|---|---|---|
+'''%(n13,n13-m13,m13)+'\n'.join(r13)+'''
 
 What changed in response, as a rule rather than case by case: every property whose code handles a
 length, a count or an index now has a *scale* scenario next to its small-scope product, in which
